@@ -633,7 +633,8 @@ def pool_after_broken_connection(where: int, same_user: bool, n_users: int) -> s
             broken = [True]
 
             class Conn:
-                sock = object()
+                sock = SimpleNamespace(getsockname=lambda: ('10.0.0.2', 40000), getpeername=lambda: ('10.0.0.1', 8000),
+                                       setsockopt=lambda *a: None, close=lambda: None)
 
                 def __init__(self, *_a, **_k):
                     pass
@@ -670,8 +671,8 @@ def pool_after_broken_connection(where: int, same_user: bool, n_users: int) -> s
             try:
                 pool.get_soap_client('10.0.0.1:8000', [], users[0]).post_message_to('/notify', msg, validate=False)
                 orc.fail('harness:connection-did-not-break')
-            except Exception:  # noqa: BLE001
-                pass
+            except http.client.NotConnected:
+                pass            # what SoapClient makes of a broken connection
             broken[0] = False           # the subscriber is reachable again
             del attempts[:]
             user = users[0] if same_user else 'accepted_later'
